@@ -14,19 +14,18 @@ Section V.
 Variable sigma : oracle.
 Variable i : inst.
 Hypothesis Hnn : inst_nonneg_b i = true.
-Hypothesis Hflex : flex_post_b i = true.
 
 Definition OKV (x : state) (tr : transition) : Prop :=
-  not_transit tr /\ exists full, get_possible_transitions i x = Ok full /\ In tr full.
+  offer_shape tr /\ exists full, get_possible_transitions i x = Ok full /\ In tr full.
 
 Lemma offers_okv x offers : get_possible_transitions i x = Ok offers -> Forall (OKV x) offers.
 Proof.
   intros H. apply Forall_forall. intros tr Hin. split; [|eauto].
-  pose proof (offers_not_transit i _ _ H) as Hn. rewrite Forall_forall in Hn. auto.
+  pose proof (offers_shape' i _ _ H) as Hn. rewrite Forall_forall in Hn. auto.
 Qed.
 
-Lemma QV_offer x o : J i x -> OKV x o -> Q [o] x.
-Proof. intros Hj [Hn _]. apply (Q_offer i); auto. Qed.
+Lemma QV_offer x o : J i x -> BI x -> create_timed_transitions i x = Ok [] -> OKV x o -> Q [o] x.
+Proof. intros Hj Hb Hct [Hn _]. apply (Q_offer i); auto. Qed.
 
 Lemma FE_no_transport_ops x : FE i x -> no_transport_ops_b x = true.
 Proof.
@@ -36,14 +35,14 @@ Proof.
   destruct P as [P1 _]. specialize (P1 _ _ Hk). unfold is_ostate. destruct (o_st o); simpl; auto; congruence.
 Qed.
 
-Theorem flex_offers_valid fuel x0 joker0 ta r m :
+Theorem run_offers_valid fuel x0 joker0 ta r m :
   clock_b x0 = true -> wfs_b i x0 = true -> fresh2_b i x0 = true -> nodep_b x0 = true ->
   reach sigma i fuel x0 joker0 ta r m ->
   forall tr, In tr (r_offers r) -> is_transition_valid (r_x r) tr = Ok true.
 Proof.
   intros C W Fr Dn H tr Hin. apply NO_iff_clock_b in C.
-  destruct (reach_reachG sigma i Hnn (J i) Q side2 OKV (J_apply sigma i Hnn Hflex) (J_now i) (Q_timed i) (Q_timed0 i) QV_offer offers_okv
-              _ _ _ _ _ _ C (J_init i _ W Fr Dn) H) as [_ [HO [xq [Nq [[_ [[F _] _]] [E|[E _]]]]]]].
+  destruct (reach_reachG sigma i Hnn (J i) Q side2 OKV BI (J_apply sigma i Hnn) (J_now i) (BI_end i) BI_now (Q_timed i) (Q_timed0 i) QV_offer offers_okv
+              _ _ _ _ _ _ C (J_init i _ W Fr Dn) (BI_init _ Dn) H) as [_ [HO [xq [Nq [[_ [[F _] _]] [E|[E _]]]]]]].
   - rewrite Forall_forall in HO. destruct (HO _ Hin) as [_ [full [Hfull Hinf]]]. rewrite E in *.
     eapply (offers_are_valid i); eauto. apply FE_no_transport_ops; auto.
   - rewrite E in Hin. destruct Hin.
